@@ -340,6 +340,22 @@ fn build_cases(tier: Tier) -> Vec<Case> {
         c.kind = Kind::Wrapper(name);
         c.label = format!("E games::{name}::query dev<={dev}");
         v.push(c);
+        // the per-game modules must also get the transport right (each names its engine itself): split replies, and for
+        // Counter-Strike: Source the protocol-7 form without the size field
+        for which in 1 .. 3 {
+            for proto in [None, Some(7u8)] {
+                if proto.is_some() && e != EngineCfg::Css240 {
+                    continue;
+                }
+                let fr = if e.gold() { Fr::GoldEven(3) } else { Fr::SourceEven(3) };
+                let mut c = base(e, 0);
+                c.kind = Kind::Wrapper(name);
+                c.protocol = proto;
+                c.framing[which] = fr.clone();
+                c.label = format!("E games::{name}::query {}={}{}", ["info", "players", "rules"][which], fr.tag(), if proto.is_some() { " protocol=7 (no size field)" } else { "" });
+                v.push(c);
+            }
+        }
     }
     v
 }
@@ -409,12 +425,11 @@ impl Prop for C02 {
                 if let Some(p) = case.protocol {
                     state.info.protocol = p;
                 }
-                if case.engine == EngineCfg::Ror2 {
-                    // the app id of this game is only expressible through the game id
-                    if let Some(e) = state.info.edf.as_mut() {
-                        if e.game_id == Some(440) {
-                            e.game_id = Some(632_360);
-                        }
+                // the generator's default 64-bit game id names app 440: it has to name the same app as the 16-bit field (for
+                // Risk of Rain 2 the app id is only expressible there)
+                if let Some(e) = state.info.edf.as_mut() {
+                    if e.game_id == Some(440) {
+                        e.game_id = Some(if case.engine == EngineCfg::Ror2 { 632_360 } else { case.engine.appid() as u64 });
                     }
                 }
                 if let Err(e) = self_check(&state, obsolete) {
@@ -494,6 +509,10 @@ impl Prop for C02 {
                             Engine::Source(Some((a, d))) => exp_valve.info.appid == a || Some(exp_valve.info.appid) == d,
                             _ => true,
                         };
+                        if !accepted && x.choices().iter().all(|c| *c == 0) {
+                            // the default state of a per-game case must be one the module accepts, or the case explores nothing
+                            ctx.violation("MACHINERY:vacuous-wrapper-case", &[], format!("{}: the default server state reports app id {} which the module rejects", case.label, exp_valve.info.appid), "", "", vec![]);
+                        }
                         if !accepted {
                             if !matches!(x.outcome.err_kind(), Some(gamedig::GDErrorKind::BadGame)) {
                                 ctx.violation(
@@ -508,6 +527,7 @@ impl Prop for C02 {
                             return;
                         }
                         // (the reference value is built here, field by field, not by the conversion under test)
+                        ctx.note("wrapper_executions_with_an_accepted_app_id", 1);
                         let exp = Resp::Game(reference_game_response(&exp_valve));
                         check_equal(ctx, x, &exp, &format!("wrapper:{name}"));
                     }
